@@ -152,6 +152,20 @@ def run(ctx):
         impl = {'sum': implobs.wire_relation(s), 'composition': implobs.wire_relation(t)}
         if f is not None:
             impl['fixpoint'] = implobs.wire_relation(f)
+        # Relation.apply_choice (the evaluator every user of a relation reads matrices with) against the stored
+        # polynomials read by definition, for operands and results
+        import itertools as _it
+        allw = [wp_ for wr in [w1, w2] + list(impl.values()) for row in wr['mat'] for wp_ in row]
+        nn = max(nidx, implobs.max_index(allw) + 1)
+        vecs = list(_it.product(range(3), repeat=nn)) if nn <= 3 else [tuple(rng.randrange(3) for _ in range(nn)) for _ in range(27)]
+        for nm, ro, wr in [('r1', r1, w1), ('r2', r2, w2), ('sum', s, impl['sum']), ('composition', t, impl['composition'])] + \
+                ([('fixpoint', f, impl['fixpoint'])] if f is not None else []):
+            mm = implobs.relation_evaluator_mismatch(ro, wr, vecs)
+            if mm:
+                ctx.violation({'kind': 'apply_choice-differs-from-definition', 'in': nm},
+                              f'apply_choice of {nm} at {mm["choice"]}, cell {mm["cell"]}: {mm["apply_choice"]}, the polynomial says {mm["by_definition"]}',
+                              {'r1': w1, 'r2': w2, 'detail': mm})
+                break
         has_inf = 'i' in json.dumps(w1) + json.dumps(w2)
         ctx.case(snap, nontrivial=(w1['vars'] != w2['vars']) or has_inf,
                  sample={'r1': str(r1), 'r2': str(r2)})
